@@ -87,4 +87,151 @@ def run (d : Discipline) (sp sw : Key → Nat) : State → List Op → State × 
 /-- State of a b-scaled transform: the scale, if already fixed. -/
 abbrev BState (K : Type) := Option K
 
+/-! ### module-level state, function caches, memo attributes (round 3)
+
+The records below are what `harness/translate/angular_cache.py` extracts from the AST of every
+module of `src/grid` (Gen/ModuleState.lean). -/
+
+/-- A module-level binding whose value is not a literal constant. -/
+structure ModObj where
+  module : String
+  name : String
+  /-- how the value is built (`dict`, `call:np.array`, …) -/
+  kind : String
+  /-- `(function, shape)`: statements that change the object or rebind the global -/
+  writers : List (String × String)
+  /-- `(function, shape)`: places where the object itself (not an element) leaves the function -/
+  escapes : List (String × String)
+  /-- functions that read elements of the object -/
+  elemReaders : List String
+  deriving DecidableEq, Repr
+
+def ModObj.qual (o : ModObj) : String := o.module ++ "." ++ o.name
+
+/-- Nothing writes the object and the object itself is never handed on. -/
+def ModObj.isConstant (o : ModObj) : Bool := o.writers.isEmpty && o.escapes.isEmpty
+
+/-- An instance attribute filled lazily (`if self.x is None: self.x = …`). -/
+structure Memo where
+  module : String
+  cls : String
+  attr : String
+  /-- accessors returning it: `(method, "itself" | "copy")` -/
+  handedOut : List (String × String)
+  filledIn : List String
+  fillExpr : List String
+  /-- `self.<name>` read by the fill expression (following local names) -/
+  reads : List String
+  deriving DecidableEq, Repr
+
+/-- A method other than `__init__` that assigns instance attributes. -/
+structure Setter where
+  module : String
+  cls : String
+  method : String
+  assigns : List String
+  resets : List String
+  /-- `Base.prop` for `Base.prop.fset(self, …)`, `super().m` -/
+  delegates : List String
+  deriving DecidableEq, Repr
+
+def Setter.assignsAll (ss : List Setter) (s : Setter) : List String :=
+  s.assigns ++ (ss.filter fun t => s.delegates.contains (t.cls ++ "." ++ t.method)).flatMap (·.assigns)
+
+def Setter.resetsAll (ss : List Setter) (s : Setter) : List String :=
+  s.resets ++ (ss.filter fun t => s.delegates.contains (t.cls ++ "." ++ t.method)).flatMap (·.resets)
+
+/-- Every method that assigns `src` (itself or through the setter it delegates to) resets `memo`. -/
+def resetOnSet (ss : List Setter) (src memo : String) : Bool :=
+  ss.all fun s => !(s.assignsAll ss).contains src || (s.resetsAll ss).contains memo
+
+/-- No accessor returns the memo object itself. -/
+def handoutFresh (ms : List Memo) (cls attr : String) : Bool :=
+  (ms.filter fun m => m.cls == cls && m.attr == attr).all fun m => m.handedOut.all fun h => h.2 != "itself"
+
+/-! #### frame machine: what calls and caller edits can do to module-level objects -/
+
+structure GState where
+  content : String → Nat
+  /-- objects (qualified names) the caller holds a reference to -/
+  held : List String
+
+inductive GOp where
+  /-- a call of library function `f`; `nc` is whatever `f` would write -/
+  | call (f : String) (nc : String → Nat)
+  /-- the caller edits an object in place -/
+  | edit (obj : String) (v : Nat)
+
+def writes (objs : List ModObj) (f n : String) : Bool :=
+  objs.any fun o => o.qual == n && o.writers.any (·.1 == f)
+
+def leaks (objs : List ModObj) (f n : String) : Bool :=
+  objs.any fun o => o.qual == n && o.escapes.any (·.1 == f)
+
+def gstep (objs : List ModObj) (s : GState) : GOp → GState
+  | .call f nc =>
+    { content := fun n => if writes objs f n then nc n else s.content n,
+      held := (objs.filter fun o => o.escapes.any (·.1 == f)).map ModObj.qual ++ s.held }
+  | .edit n v =>
+    if s.held.contains n then { s with content := fun m => if m == n then v else s.content m } else s
+
+def grun (objs : List ModObj) (s : GState) (ops : List GOp) : GState := ops.foldl (gstep objs) s
+
+/-! #### memo machine: a lazily filled attribute computed from a source attribute -/
+
+structure MemoCfg where
+  /-- every setter of the source resets the memo -/
+  resetOnSet : Bool
+  /-- no accessor hands the memo object itself to the caller -/
+  handoutFresh : Bool
+  deriving DecidableEq, Repr
+
+structure MState where
+  src : Nat
+  memo : Option Nat
+  /-- the caller holds the memo object itself -/
+  held : Bool
+  deriving DecidableEq, Repr
+
+inductive MOp where
+  /-- a method that uses the memo (fills it first when empty) and returns a result computed from it -/
+  | query
+  /-- the setter of the source -/
+  | setSrc (v : Nat)
+  /-- the accessor of the memo -/
+  | handout
+  /-- in-place edit of the object the accessor returned -/
+  | editHeld (v : Nat)
+  /-- in-place edit of the source array (no setter involved) -/
+  | editSrcInPlace (v : Nat)
+  deriving DecidableEq, Repr
+
+/-- Operations available through the API of the class (in-place edits of the source array are not). -/
+def MOp.viaApi : MOp → Bool
+  | .editSrcInPlace _ => false
+  | _ => true
+
+def mstep (cfg : MemoCfg) (f : Nat → Nat) (s : MState) : MOp → MState × Option Nat
+  | .query =>
+    let m := match s.memo with
+      | some m => m
+      | none => f s.src
+    ({ s with memo := some m }, some m)
+  | .setSrc v => ({ s with src := v, memo := if cfg.resetOnSet then none else s.memo }, none)
+  | .handout =>
+    match s.memo with
+    | some m => ({ s with held := s.held || !cfg.handoutFresh }, some m)
+    | none => (s, none)
+  | .editHeld v => (if s.held then { s with memo := s.memo.map fun _ => v } else s, none)
+  | .editSrcInPlace v => ({ s with src := v }, none)
+
+/-- Outputs of a history, each with the source content at that moment. -/
+def mrun (cfg : MemoCfg) (f : Nat → Nat) : MState → List MOp → List (Option Nat × Nat)
+  | _, [] => []
+  | s, op :: ops =>
+    let (s', o) := mstep cfg f s op
+    (o, s'.src) :: mrun cfg f s' ops
+
+def minit (v : Nat) : MState := ⟨v, none, false⟩
+
 end GridVerif.Aliasing
